@@ -44,13 +44,17 @@ def EntryStep (s s1 : NetcodeServer) (ne : ConnectTokenEntry) : Prop :=
 /-- the possible outcomes of `handle_connection_request` -/
 inductive HcrOut (a : AEAD) (s : NetcodeServer) (addr : Addr) (v : Bytes) (pid expire : Nat) (xnonce data : Bytes) :
     NetcodeServer.SRes → Prop
-  /-- a check failed: nothing changes -/
-  | err (e : NetcodeError) : HcrOut a s addr v pid expire xnonce data (.err (e, s))
-  /-- already connected / pending map full / token bound to another address: nothing changes -/
-  | none : HcrOut a s addr v pid expire xnonce data (.ok (.none, s))
+  /-- a check failed (the request is not `Accepted`): nothing changes -/
+  | err (e : NetcodeError) : (∀ t, ¬ Accepted a s addr v pid expire xnonce data t) →
+      HcrOut a s addr v pid expire xnonce data (.err (e, s))
+  /-- already connected / pending map full / token bound to another address (not `Accepted`): nothing changes -/
+  | none : (∀ t, ¬ Accepted a s addr v pid expire xnonce data t) →
+      HcrOut a s addr v pid expire xnonce data (.ok (.none, s))
   | deniedErr (t : PrivateConnectToken) (s1 : NetcodeServer) (e : NetcodeError) :
       Accepted a s addr v pid expire xnonce data t → EntryStep s s1 ⟨s.currentTime, addr, tokenMac data⟩ →
       countConnected s.clients ≥ s.maxClients →
+      Packet.connectionDenied.encode a C.NETCODE_MAX_PACKET_BYTES s.protocolId
+        (some (s.globalSequence, t.serverToClientKey)) = .err e →
       HcrOut a s addr v pid expire xnonce data
         (.err (e, { s1 with pendingClients := pendingRemove s1.pendingClients addr }))
   /-- the server is full: the half-open session of this address (if any) is dropped, `ConnectionDenied` goes out -/
@@ -65,6 +69,9 @@ inductive HcrOut (a : AEAD) (s : NetcodeServer) (addr : Addr) (v : Bytes) (pid e
   | challengeErr (t : PrivateConnectToken) (s1 : NetcodeServer) (e : NetcodeError) :
       Accepted a s addr v pid expire xnonce data t → EntryStep s s1 ⟨s.currentTime, addr, tokenMac data⟩ →
       countConnected s.clients < s.maxClients →
+      (ChallengeToken.generate a t.clientId t.userData (s.challengeSequence + 1) s.challengeKey = .err e ∨
+        ∃ pkt, ChallengeToken.generate a t.clientId t.userData (s.challengeSequence + 1) s.challengeKey = .ok pkt ∧
+          pkt.encode a C.NETCODE_MAX_PACKET_BYTES s.protocolId (some (s.globalSequence, t.serverToClientKey)) = .err e) →
       HcrOut a s addr v pid expire xnonce data
         (.err (e, { s1 with challengeSequence := s.challengeSequence + 1 }))
   /-- a challenge goes out and the half-open session of this address is (re)created from the token -/
@@ -77,6 +84,14 @@ inductive HcrOut (a : AEAD) (s : NetcodeServer) (addr : Addr) (v : Bytes) (pid e
         (.ok (.packetToSend addr out,
               { s1 with challengeSequence := s.challengeSequence + 1, globalSequence := s.globalSequence + 1
                         pendingClients := pendingSet s1.pendingClients addr (mkPending s.currentTime addr expire t) }))
+
+theorem tokenOpens_unique {a : AEAD} {s : NetcodeServer} {expire : Nat} {xnonce data : Bytes}
+    {t t' : PrivateConnectToken} (h : TokenOpens a s expire xnonce data t) (h' : TokenOpens a s expire xnonce data t') :
+    t = t' := by
+  obtain ⟨p, h1, h2⟩ := h
+  obtain ⟨p', h1', h2'⟩ := h'
+  rw [h1] at h1'; cases h1'
+  rw [h2] at h2'; cases h2'; rfl
 
 theorem lift_ok {α} (s : NetcodeServer) (x : α) : NetcodeServer.lift s (.ok x : NRes α) = .ok x := rfl
 theorem lift_err {α} (s : NetcodeServer) (e : NetcodeError) : NetcodeServer.lift s (.err e : NRes α) = .err (e, s) := rfl
@@ -115,32 +130,53 @@ theorem hcr_spec (a : AEAD) (s : NetcodeServer) (addr : Addr) (v : Bytes) (pid e
       (NetcodeServer.handleConnectionRequest a s addr v pid expire xnonce data) := by
   unfold NetcodeServer.handleConnectionRequest
   split
-  · exact Or.inl (.err _)
+  · rename_i h; exact Or.inl (.err _ fun t ha => h ha.version)
   rename_i hv
   split
-  · exact Or.inl (.err _)
+  · rename_i h; exact Or.inl (.err _ fun t ha => h ha.protocol)
   rename_i hp
   split
-  · exact Or.inl (.err _)
+  · rename_i h; exact Or.inl (.err _ fun t ha => by have := ha.unexpired; omega)
   rename_i hx
   unfold PrivateConnectToken.decode
   rw [if_neg (by omega)]
   cases hxo : a.xopen s.connectKey xnonce (PrivateConnectToken.additionalData s.protocolId expire) data with
-  | none => exact Or.inl (.err _)
+  | none => exact Or.inl (.err _ fun t ha => by obtain ⟨p, h1, _⟩ := ha.opens; rw [hxo] at h1; cases h1)
   | some plain =>
     simp only
     cases hrd : PrivateConnectToken.read (plain ++ data.drop plain.length) with
-    | none => exact Or.inl (.err _)
+    | none =>
+      exact Or.inl (.err _ fun t ha => by
+        obtain ⟨p, h1, h2⟩ := ha.opens; rw [hxo] at h1; cases h1; rw [hrd] at h2; cases h2)
     | some t =>
+      have hopens : TokenOpens a s expire xnonce data t := ⟨plain, hxo, hrd⟩
       simp only
       split
-      · exact Or.inl (.err _)
+      · rename_i h
+        refine Or.inl (.err _ fun t' ha => ?_)
+        have := tokenOpens_unique hopens ha.opens; subst this
+        obtain ⟨x, hx1, hx2⟩ := ha.host h.1
+        have h2 := h.2
+        simp only [Bool.not_eq_true', List.any_eq_false] at h2
+        have := h2 (some x) hx1
+        simp [hx2] at this
       rename_i hhost
       split
-      · exact Or.inl .none
+      · rename_i h
+        refine Or.inl (.none fun t' ha => ?_)
+        have := tokenOpens_unique hopens ha.opens; subst this
+        rw [ha.idFree, ha.addrFree] at h
+        simp at h
       rename_i hfree
       split
-      · exact Or.inl .none
+      · rename_i h
+        refine Or.inl (.none fun t' ha => ?_)
+        rcases ha.room with h' | h'
+        · have h1 := h.1
+          cases hpf : pendingFind s.pendingClients addr with
+          | none => rw [hpf] at h'; cases h'
+          | some q => rw [hpf] at h1; cases h1
+        · have := h.2; omega
       rename_i hroom
       have hacc : (s.findOrAddConnectTokenEntry ⟨s.currentTime, addr, tokenMac data⟩).2 = true →
           Accepted a s addr v pid expire xnonce data t := by
@@ -178,7 +214,7 @@ theorem hcr_spec (a : AEAD) (s : NetcodeServer) (addr : Addr) (v : Bytes) (pid e
             cases hen : Packet.connectionDenied.encode a C.NETCODE_MAX_PACKET_BYTES s.protocolId
                 (some (s.globalSequence, t.serverToClientKey)) with
             | panic m => exact absurd hen (encode_ne_panic _ _ _ _ _ _)
-            | err e' => exact Or.inl (.deniedErr t s e' hacc (Or.inl rfl) hfull)
+            | err e' => exact Or.inl (.deniedErr t s e' hacc (Or.inl rfl) hfull hen)
             | ok out =>
               simp only [lift_ok, bind_ok']
               generalize hinc : (incU64 s.globalSequence _ : Res (NetcodeError × NetcodeServer) Nat) = X
@@ -193,13 +229,13 @@ theorem hcr_spec (a : AEAD) (s : NetcodeServer) (addr : Addr) (v : Bytes) (pid e
             simp only [bind_ok']
             cases hgen : ChallengeToken.generate a t.clientId t.userData (s.challengeSequence + 1) s.challengeKey with
             | panic m => exact absurd hgen (generate_ne_panic _ _ _ _ _ _)
-            | err e' => exact Or.inl (.challengeErr t s e' hacc (Or.inl rfl) (by omega))
+            | err e' => exact Or.inl (.challengeErr t s e' hacc (Or.inl rfl) (by omega) (Or.inl hgen))
             | ok pkt =>
               simp only [lift_ok, bind_ok']
               cases hen : pkt.encode a C.NETCODE_MAX_PACKET_BYTES s.protocolId
                   (some (s.globalSequence, t.serverToClientKey)) with
               | panic m => exact absurd hen (encode_ne_panic _ _ _ _ _ _)
-              | err e' => exact Or.inl (.challengeErr t s e' hacc (Or.inl rfl) (by omega))
+              | err e' => exact Or.inl (.challengeErr t s e' hacc (Or.inl rfl) (by omega) (Or.inr ⟨pkt, hgen, hen⟩))
               | ok out =>
                 simp only [lift_ok, bind_ok']
                 generalize hinc2 : (incU64 s.globalSequence _ : Res (NetcodeError × NetcodeServer) Nat) = X2
@@ -209,7 +245,10 @@ theorem hcr_spec (a : AEAD) (s : NetcodeServer) (addr : Addr) (v : Bytes) (pid e
                 · exact Or.inr ⟨⟨_, rfl⟩, ⟨t, hacc⟩, fun h => hn h.1⟩
         · rw [heq']
           simp only [hadr, decide_false, Bool.not_false, if_true]
-          exact Or.inl .none
+          refine Or.inl (.none fun t' ha => ?_)
+          have := ha.binding
+          rw [heq] at this
+          simp [hadr] at this
       · -- no entry with this MAC: it is recorded
         have heq' : s.findOrAddConnectTokenEntry ⟨s.currentTime, addr,
             data.drop (C.NETCODE_CONNECT_TOKEN_PRIVATE_BYTES - C.NETCODE_MAC_BYTES)⟩ = _ := heq
@@ -222,7 +261,7 @@ theorem hcr_spec (a : AEAD) (s : NetcodeServer) (addr : Addr) (v : Bytes) (pid e
           cases hen : Packet.connectionDenied.encode a C.NETCODE_MAX_PACKET_BYTES s.protocolId
               (some (s.globalSequence, t.serverToClientKey)) with
           | panic m => exact absurd hen (encode_ne_panic _ _ _ _ _ _)
-          | err e' => exact Or.inl (.deniedErr t _ e' hacc hstep hfull)
+          | err e' => exact Or.inl (.deniedErr t _ e' hacc hstep hfull hen)
           | ok out =>
             simp only [lift_ok, bind_ok']
             generalize hinc : (incU64 s.globalSequence _ : Res (NetcodeError × NetcodeServer) Nat) = X
@@ -237,13 +276,13 @@ theorem hcr_spec (a : AEAD) (s : NetcodeServer) (addr : Addr) (v : Bytes) (pid e
           simp only [bind_ok']
           cases hgen : ChallengeToken.generate a t.clientId t.userData (s.challengeSequence + 1) s.challengeKey with
           | panic m => exact absurd hgen (generate_ne_panic _ _ _ _ _ _)
-          | err e' => exact Or.inl (.challengeErr t _ e' hacc hstep (by omega))
+          | err e' => exact Or.inl (.challengeErr t _ e' hacc hstep (by omega) (Or.inl hgen))
           | ok pkt =>
             simp only [lift_ok, bind_ok']
             cases hen : pkt.encode a C.NETCODE_MAX_PACKET_BYTES s.protocolId
                 (some (s.globalSequence, t.serverToClientKey)) with
             | panic m => exact absurd hen (encode_ne_panic _ _ _ _ _ _)
-            | err e' => exact Or.inl (.challengeErr t _ e' hacc hstep (by omega))
+            | err e' => exact Or.inl (.challengeErr t _ e' hacc hstep (by omega) (Or.inr ⟨pkt, hgen, hen⟩))
             | ok out =>
               simp only [lift_ok, bind_ok']
               generalize hinc2 : (incU64 s.globalSequence _ : Res (NetcodeError × NetcodeServer) Nat) = X2
@@ -357,6 +396,12 @@ inductive PPOut (a : AEAD) (s : NetcodeServer) (addr : Addr) (buf : Bytes) : Ser
       Packet.decode a buf s.protocolId (some p.receiveKey) (some p.replayProtection) =
         (.ok (sq, .response ts td), some w') →
       ChallengeToken.decode a td ts s.challengeKey = .ok ⟨p.clientId, p.userData⟩ →
+      ((findClientSlotById s.clients p.clientId).isSome = true ∨
+        (∃ e, Packet.connectionDenied.encode a C.NETCODE_MAX_PACKET_BYTES s.protocolId
+                (some (s.globalSequence, p.sendKey)) = .err e) ∨
+        (∃ i e, firstFreeSlot s.clients = some i ∧
+          (Packet.keepAlive (i % 2 ^ 32) (s.maxClients % 2 ^ 32)).encode a C.NETCODE_MAX_PACKET_BYTES s.protocolId
+            (some (p.sequence, p.sendKey)) = .err e)) →
       PPOut a s addr buf .none { s with pendingClients := pendingRemove s.pendingClients addr }
   /-- a matching response but no free slot: `ConnectionDenied` -/
   | respFull (p : Connection) (sq ts : Nat) (td : Bytes) (w' : RP) (out : Bytes) :
@@ -523,7 +568,8 @@ theorem ppi_spec (a : AEAD) {s : NetcodeServer} (hi : ServerInv s) (addr : Addr)
                   rw [hct, ← h1, ← h2]
                 simp only [pendingRemove_pendingSet, h1, h2]
                 split
-                · exact Or.inl ⟨_, _, Or.inl rfl, .respDropped p sq ts td w' hfa hpf hdec hct'⟩
+                · rename_i hdup
+                  exact Or.inl ⟨_, _, Or.inl rfl, .respDropped p sq ts td w' hfa hpf hdec hct' (Or.inl hdup)⟩
                 · rename_i hnd
                   have hidn : findClientById s.clients p.clientId = none := by
                     rw [findSlot_isSome] at hnd
@@ -536,7 +582,9 @@ theorem ppi_spec (a : AEAD) {s : NetcodeServer} (hi : ServerInv s) (addr : Addr)
                     cases hen : Packet.connectionDenied.encode a C.NETCODE_MAX_PACKET_BYTES s.protocolId
                         (some (s.globalSequence, p.sendKey)) with
                     | panic m => exact absurd hen (encode_ne_panic _ _ _ _ _ _)
-                    | err e => exact Or.inl ⟨_, _, Or.inr ⟨rfl, _, rfl⟩, .respDropped p sq ts td w' hfa hpf hdec hct'⟩
+                    | err e =>
+                      exact Or.inl ⟨_, _, Or.inr ⟨rfl, _, rfl⟩,
+                        .respDropped p sq ts td w' hfa hpf hdec hct' (Or.inr (Or.inl ⟨e, hen⟩))⟩
                     | ok out =>
                       simp only [lift_ok, bind_ok']
                       generalize hinc : (incU64 s.globalSequence _ : Res (NetcodeError × NetcodeServer) Nat) = X
@@ -549,7 +597,9 @@ theorem ppi_spec (a : AEAD) {s : NetcodeServer} (hi : ServerInv s) (addr : Addr)
                     cases hen : (Packet.keepAlive (i % 2 ^ 32) (s.maxClients % 2 ^ 32)).encode a
                         C.NETCODE_MAX_PACKET_BYTES s.protocolId (some (p.sequence, p.sendKey)) with
                     | panic m => exact absurd hen (encode_ne_panic _ _ _ _ _ _)
-                    | err e => exact Or.inl ⟨_, _, Or.inr ⟨rfl, _, rfl⟩, .respDropped p sq ts td w' hfa hpf hdec hct'⟩
+                    | err e =>
+                      exact Or.inl ⟨_, _, Or.inr ⟨rfl, _, rfl⟩,
+                        .respDropped p sq ts td w' hfa hpf hdec hct' (Or.inr (Or.inr ⟨i, e, hff, hen⟩))⟩
                     | ok out =>
                       have hsq : p.sequence < U64_MAX := by rw [hpok.seq]; decide
                       simp only [lift_ok, bind_ok', incU64_ok _ hsq, pure_eq']
